@@ -18,6 +18,7 @@ import (
 	"github.com/karagenc/socket.io-go/engine.io/transport"
 	"github.com/karagenc/socket.io-go/engine.io/transport/polling"
 	vx "github.com/karagenc/socket.io-go/internal/vexplore"
+	"github.com/karagenc/socket.io-go/internal/vrig"
 	"github.com/karagenc/socket.io-go/internal/vsched"
 )
 
@@ -554,6 +555,86 @@ func transportSlowClientScenario(name string, batches int, bound int) *vx.Scenar
 	return sc
 }
 
+// ---- 5. the whole send path of a connected Socket.IO client: an event emitted on a connected socket leaves at
+// once (the in-process link has no latency: the server's handler runs at the same virtual instant), whatever
+// the socket went through before - an ack timeout that fired, events buffered while it was connecting, a
+// volatile emit. It never waits in the socket's send buffer for the next reconnection or another flush.
+func clientSendPath(name, history string, bound int) *vx.Scenario {
+	sc := &vx.Scenario{Name: name, Bound: bound, Horizon: 10 * time.Minute}
+	sc.Body = func(e *vsched.Exec) func() vx.Result {
+		vsched.SetExploring(false)
+		scfg := &sio.ServerConfig{}
+		scfg.EIO.PingInterval = 30 * time.Minute // no heartbeat inside the scenario: nothing else flushes anything
+		scfg.EIO.PingTimeout = 30 * time.Minute
+		srv, mgr, _ := vrig.NewSioPair(scfg, nil)
+		var v vsched.Var
+		arrived := map[string]time.Duration{}
+		ready := false
+		srv.Use(func(s sio.ServerSocket, h *sio.Handshake) any {
+			s.OnEvent("m", func(tag string) { v.Do(func() { arrived[tag] = e.Clock() }) })
+			s.OnEvent("noack", func(tag string, ack func(string)) { v.Do(func() { arrived[tag] = e.Clock() }) }) // never answers
+			v.Do(func() { ready = true })
+			return nil
+		})
+		srv.OnConnection(func(sio.ServerSocket) {})
+		sock := mgr.Socket("/", nil)
+		connected := false
+		sock.OnConnect(func() { v.Do(func() { connected = true }) })
+		timeouts := 0
+		sock.Connect()
+		if history == "emitted-while-connecting" {
+			sock.Emit("m", "early") // buffered until the CONNECT reply, flushed by it
+		}
+		vsched.Await(func() bool { return connected && ready })
+		vrig.Settle(time.Second)
+		switch history {
+		case "ack-timeout-fired", "two-ack-timeouts-fired":
+			n := 1
+			if history == "two-ack-timeouts-fired" {
+				n = 2
+			}
+			for i := 0; i < n; i++ {
+				sock.Timeout(time.Second).Emit("noack", fmt.Sprintf("t%d", i), func(err error, s string) {
+					if err != nil {
+						v.Do(func() { timeouts++ })
+					}
+				})
+			}
+			vsched.Sleep(3 * time.Second)
+		case "volatile-emit":
+			sock.Volatile().Emit("m", "vol")
+			vrig.Settle(time.Second)
+		}
+		vsched.SetExploring(true)
+		sent := map[string]time.Duration{}
+		for _, tag := range []string{"after-1", "after-2"} {
+			sent[tag] = e.Clock()
+			sock.Emit("m", tag)
+			vsched.Sleep(time.Minute) // nothing else happens in this minute
+		}
+		return func() vx.Result {
+			var r vx.Result
+			var late []string
+			for _, tag := range []string{"after-1", "after-2"} {
+				at, ok := arrived[tag]
+				switch {
+				case !ok:
+					late = append(late, fmt.Sprintf("%s emitted at %v never reached the server", tag, sent[tag]))
+				case at > sent[tag]:
+					late = append(late, fmt.Sprintf("%s emitted at %v reached the server at %v", tag, sent[tag], at))
+				}
+			}
+			sb, _ := sio.VerifClientSocketBuffers(sock)
+			r.Outcome = fmt.Sprintf("late=%d timeouts=%d buffered=%d", len(late), timeouts, sb)
+			if len(late) > 0 {
+				r.Violate("client send path: an event emitted on a connected socket waits in the socket's send buffer", "history %q (ack timeouts fired: %d): %v; frames left in the send buffer at the end: %d", history, timeouts, late, sb)
+			}
+			return r
+		}
+	}
+	return sc
+}
+
 func scenarios(tier string) []*vx.Scenario {
 	big := 3 // preemption bound for the scenarios whose unbounded space does not fit the quick budget
 	// thorough: iterative preemption bounding up to 8 for the spaces that do not fit the budget unbounded
@@ -585,6 +666,11 @@ func scenarios(tier string) []*vx.Scenario {
 		transportScenario("transport/2pollers-1sender-thrice", 2, [][]int{{1, 1, 1}}, false, big),
 		transportScenario("transport/2pollers-1sender-twice-discard", 2, [][]int{{1, 1}}, true, big-1),
 		transportSlowClientScenario("transport/2pollers-slow-reading-client-3-packets", 3, big),
+		clientSendPath("client-send-path/plain", "plain", 1),
+		clientSendPath("client-send-path/after-an-ack-timeout-fired", "ack-timeout-fired", 1),
+		clientSendPath("client-send-path/after-two-ack-timeouts-fired", "two-ack-timeouts-fired", 1),
+		clientSendPath("client-send-path/after-events-were-buffered-while-connecting", "emitted-while-connecting", 1),
+		clientSendPath("client-send-path/after-a-volatile-emit", "volatile-emit", 1),
 	}
 	if tier == "thorough" {
 		s = append(s,
